@@ -8,11 +8,13 @@ position in the array, so bit-identity is not implied by the statement).  Both i
 the reverse sweep (input adjoints, seed restricted to the direction).
 """
 import numpy as np
+from hypothesis import strategies as st
 
 from algopy import UTPM
 
 from ..runner import Bucket, Violation, Inconclusive, Rejected, guard
 from . import _meta as M
+from .. import gen
 
 PID = 'C11'
 RULE = ('single-operation buckets (each public operation family first, then up to 2 cheap instructions) and composition buckets from '
@@ -90,6 +92,63 @@ def prop_reverse(case, stats):
                 M.close(b[:, p], a[:, p], TOL, 'adjoint of input %d: direction %d after changing only direction %d (inputs and seed) vs before' % (i, p, q), stats)
 
 
+@st.composite
+def degenerate_cases(draw, tier, op):
+    """structurally different base points per direction: some (not all) directions have a rank deficient base matrix (qr) or
+    repeated eigenvalues (eigh); the kernels then take different branches per direction.  Only the metamorphic relations are
+    checked (the factors of a rank deficient matrix are not unique, but they are a function of that direction's data alone)."""
+    K = 4
+    D = draw(st.sampled_from([3, 2, 4, 5]))
+    P = draw(st.sampled_from([2, 3, 3]))
+    if op in ('qr', 'qr_full'):
+        n = draw(st.integers(2, 3))
+        m = draw(st.integers(n, 4))
+        mats = [draw(gen.well_conditioned(m, n)) for _ in range(K)]
+    else:
+        n = draw(st.integers(2, 4))
+        mats = [None] * K
+    deg = draw(st.lists(st.booleans(), min_size=K, max_size=K).filter(lambda l: any(l[1:1 + P]) and not all(l[1:1 + P])))
+    for k in range(K):
+        if op in ('qr', 'qr_full'):
+            if deg[k]:
+                # algopy's rank handling inverts the LEADING rank x rank block of R_0: the dependent columns must be the trailing
+                # ones (a zero leading column raises LinAlgError - loud, and outside the regularity condition anyway); exact
+                # zeros so that the rank decision does not depend on rounding
+                a = mats[k].copy()
+                a[:, n - 1] = 0.0
+                if n >= 3 and draw(st.booleans()):
+                    a[:, n - 2] = 0.0
+                mats[k] = a
+        else:
+            Q = draw(gen.orthogonal(n))
+            lam = draw(gen.spaced_values(n, -2.0, 0.4))
+            if deg[k]:
+                i = draw(st.integers(0, n - 2))
+                lam = np.array(lam, dtype=float)
+                lam[i + 1] = lam[i]
+                if n >= 3 and draw(st.booleans()):
+                    lam[(i + 2) % n] = lam[i]
+            sym = (Q * lam) @ Q.T
+            sym = 0.5 * (sym + sym.T)
+            a = draw(gen.float_array((n, n), gen.nice_floats(-1.0, 1.0), sparse=False))
+            mats[k] = 0.5 * sym + 0.5 * (a - a.T)          # m + m^T == sym
+    pts = [np.array(mats)]
+    prog = {'qr': [['qr', 0, draw(st.integers(0, 1))]], 'qr_full': [['qr_full', 0, 1]],
+            'eigh_val': [['eigh_sym', 0, 0]], 'eigh_fun': [['eigh_fun', 0]]}[op]
+    case = {'pts': pts, 'prog': prog, 'out': 1, 'D': D, 'P': P, 'deg': [bool(b) for b in deg]}
+    case['hi'] = [draw(gen.higher_coeffs((D - 1, P) + pts[0].shape[1:], gen.coeff_elements(1.0)))]
+    case['althi'] = [draw(gen.float_array((D - 1,) + pts[0].shape[1:], gen.coeff_elements(1.0), sparse=False))]
+    case['q'] = draw(st.integers(0, P - 1))
+    return case
+
+
+def _deg_classes(case):
+    P = case['P']
+    d = case['deg'][1:1 + P]
+    return ['D=%d' % case['D'], 'P=%d' % P, 'first=' + case['prog'][0][0], 'degenerate-directions=%d/%d' % (sum(d), P),
+            'degenerate-first' if d[0] else 'regular-first', 'alt-degenerate' if case['deg'][0] else 'alt-regular']
+
+
 def _classes(case):
     return M.base_classes(case) + (['distinct-bases'] if _distinct(case) else [])
 
@@ -102,6 +161,9 @@ def buckets(tier):
     bl.append(Bucket('fwd:compose', (lambda: M.meta_cases(tier, max_len=8, Pmin=2)), prop_forward,
                      {'quick': 40, 'thorough': 600}, nontrivial=_distinct, classes=_classes,
                      shards={'quick': 6, 'thorough': 12}, weight=4.0))
+    for op in ('qr', 'eigh_val', 'eigh_fun'):      # (qr_full inverts R_0: no rank deficient support, it raises LinAlgError)
+        bl.append(Bucket('fwd:degenerate:' + op, (lambda op=op: degenerate_cases(tier, op)), prop_forward,
+                         {'quick': 60, 'thorough': 600}, nontrivial=(lambda case: True), classes=_deg_classes))
     for fam in M.REV_SINGLE:
         bl.append(Bucket('rev:' + fam, (lambda fam=fam: M.meta_cases(tier, first=fam, families=M.CHEAP_TAIL, max_len=3, Pmin=2, reverse_mode=True)),
                          prop_reverse, {'quick': 25, 'thorough': 250}, nontrivial=_distinct, classes=_classes, weight=2.0))
